@@ -9,15 +9,31 @@ XNonInt == <<97, 95, 120>>           \* a_x   (no integer suffix)
 XNoSuffix == <<97, 95>>              \* a_    (empty suffix)
 \* identifiers in the form the function must accept
 HeadsCanon == {HNone, HA, HAB, HUU}
-NumsCanon == {0, 1, 2, 3, 5, 9999, 10000}
+NumsCanon == {0, 1, 2, 5, 9999, 10000}
 \* thorough tier, collections of <= 4
 HeadsCanon4 == {HNone, HA, HAB}
 NumsCanon4 == {1, 2, 3, 5, 9999, 10000}
 \* every printed width, empty prefix included
 HeadsAll == {HNone, HEmpty, HA}
 NumsAll == {1, 2, 9, 10, 99999}
+NumsQuick == {1, 2, 10, 99999}
 NumsBig == {0, 1, 2, 9, 10, 12, 99999}
 WidthsAll == {1, 4, 5}
 WidthsQuick == {1, 4}
-ExtraAll == {XNonInt, XNoSuffix}
+\* footers that cannot be encoded: ASCII oddities and digits of other scripts (code points)
+XPlus == <<97, 95, 43, 50>>                          \* a_+2
+XBlank == <<97, 95, 32, 50>>                         \* a_ 2
+XMinus == <<97, 95, 45, 50>>                         \* a_-2
+XExp == <<97, 95, 49, 101, 49>>                      \* a_1e1
+XArabic == <<97, 95, 1634>>                          \* a_ + ARABIC-INDIC TWO        (would merge with a_1)
+XDeva == <<97, 95, 2415>>                            \* a_ + DEVANAGARI NINE         (would merge with a_10)
+XFull == <<97, 95, 65296, 65296, 65296, 65298>>      \* a_ + FULLWIDTH 0002          (would merge with a_0001)
+XMixed == <<97, 95, 49, 1632>>                       \* a_1 + ARABIC-INDIC ZERO      (a_10 respelt)
+XSuper == <<97, 95, 178>>                            \* a_ + SUPERSCRIPT TWO
+XBareFull == <<65296, 65296, 65296, 65297>>          \* FULLWIDTH 0001, no delimiter
+ExtraAscii == {XNonInt, XNoSuffix, XPlus, XBlank, XMinus, XExp}
+ExtraUni == {XArabic, XDeva, XFull, XMixed, XSuper, XBareFull}
+ExtraAll == ExtraAscii \cup ExtraUni
+ExtraQuick == {XNonInt, XPlus, XArabic, XFull, XMixed, XSuper}
+HeadsUni == {HNone, HA}
 =============================================================================
